@@ -684,7 +684,7 @@ func TestC32(t *testing.T) {
 	r := mc.NewRun(t, "C32", mc.Exploration)
 	r.Rule = "predecessor = 3 sensitive + 3 regular voters + 2 roots in 2 index layouts x quorum {1,2}; successor = certificate-set edit " +
 		"(none; per certificate: replaced with new key / same key, swapped for a fresh subject, removed; per class: added; quick: selected pairs, " +
-		"thorough: all pairs) x policy edit {none, quorum, core, auth, core reordered} x every vote list over {-1, 0..7, 8} up to length 2 (thorough 3) " +
+		"thorough: all pairs in the first layout with vote lists up to length 2) x policy edit {none, quorum, core, auth, core reordered} x every vote list over {-1, 0..7, 8} up to length 2 (thorough 3) " +
 		"plus all duplicate-free single-class lists of length 3, signed by every predecessor and successor certificate; every vote list the spec " +
 		"could accept is additionally run with exactly the required signer set, each required signature missing, made with a foreign key, or made " +
 		"over another payload, and with one superfluous signer; header edits (serial, base, ISD with a full ISD-2 certificate set, noTrustReset, " +
@@ -706,6 +706,7 @@ func TestC32(t *testing.T) {
 	}
 	editSets := c32EditSets(mc.Thorough())
 	voteLists := c32VoteLists(8, mc.Pick(2, 3), true)
+	voteLists2 := c32VoteLists(8, 2, true)
 	// all duplicate-free single-class vote lists of length 3 (needed for quorum 2 with a spare vote)
 	perm3 := [][]int{{0, 1, 2}, {0, 2, 1}, {1, 0, 2}, {1, 2, 0}, {2, 0, 1}, {2, 1, 0}}
 
@@ -728,6 +729,9 @@ func TestC32(t *testing.T) {
 						continue
 					}
 				}
+				if mc.Thorough() && len(es) > 1 && p.layout == 1 {
+					continue // thorough: pairs of certificate edits in the first layout only
+				}
 				jobs = append(jobs, job{p, es, pol})
 			}
 		}
@@ -740,8 +744,11 @@ func TestC32(t *testing.T) {
 		}
 		j := jobs[ji]
 		lists := voteLists
-		if !mc.Thorough() {
-			lists = append([][]int{}, voteLists...)
+		if mc.Thorough() && len(j.edits) > 1 {
+			lists = voteLists2 // pairs of edits: vote lists up to length 2 plus the duplicate-free triples
+		}
+		if !mc.Thorough() || len(j.edits) > 1 {
+			lists = append([][]int{}, lists...)
 			for _, cl := range []c32Class{c32S, c32R} {
 				for _, pm := range perm3 {
 					lists = append(lists, []int{j.pred.pos(cl, pm[0]), j.pred.pos(cl, pm[1]), j.pred.pos(cl, pm[2])})
